@@ -44,6 +44,13 @@ class MemFS:
         return io.StringIO(f[0])
 
     def glob(self, pattern, recursive=False):
+        from vlib.base import notrace
+        with notrace():
+            if type(pattern) is str and all(type(p) is str for p in self.files):      # nothing symbolic: no point in tracing fnmatch's regex compiler
+                return self._glob(pattern, recursive)
+        return self._glob(pattern, recursive)
+
+    def _glob(self, pattern, recursive=False):
         out = []
         for p in sorted(self.files):
             if _glob_match(p, pattern, recursive):
